@@ -55,6 +55,14 @@ func (it *Interp) newInput(name string, s Sort, meta string) *Term {
 	return v
 }
 
+// extendModel gives a freshly created input a value in the cached model so that the model stays usable.
+func (it *Interp) extendModel(v *Term, val *Term) {
+	if it.model != nil && val != nil && val.IsConst() && it.model[v.Name] == nil {
+		it.model[v.Name] = val
+		delete(it.modelMemo, v)
+	}
+}
+
 func (it *Interp) errorStringType() types.Type {
 	pkg := it.prog.ImportedPackage("errors")
 	if pkg == nil {
@@ -77,14 +85,14 @@ func (it *Interp) goValue(v Value, t types.Type) interface{} {
 			return nil
 		}
 		// error / Stringer
-		if m := it.prog.LookupMethod(x.T, nil, "Error"); m != nil && m.Signature.Params().Len() == 0 {
+		if m := it.findMethod(x.T, nil, "Error"); m != nil && m.Signature.Params().Len() == 0 {
 			r := it.call(m, []Value{x.V}, nil)
 			if s, ok := r.(string); ok {
 				return fmtErr(s)
 			}
 			return fmtErr("<sym error>")
 		}
-		if m := it.prog.LookupMethod(x.T, nil, "String"); m != nil && m.Signature.Params().Len() == 0 && m.Signature.Results().Len() == 1 {
+		if m := it.findMethod(x.T, nil, "String"); m != nil && m.Signature.Params().Len() == 0 && m.Signature.Results().Len() == 1 {
 			r := it.call(m, []Value{x.V}, nil)
 			if s, ok := r.(string); ok {
 				return fmtStr(s)
@@ -176,7 +184,7 @@ func (it *Interp) writeString(w Value, s Value) Value {
 	if ifc.T == nil {
 		it.runtimePanic("invalid memory address or nil pointer dereference (nil io.Writer)")
 	}
-	m := it.prog.LookupMethod(ifc.T, nil, "Write")
+	m := it.findMethod(ifc.T, nil, "Write")
 	if m == nil {
 		it.outside("no Write method on %s", ifc.T)
 	}
@@ -368,8 +376,17 @@ func (it *Interp) setupIntrinsics() {
 		name := cstr(it, a[0])
 		lo, hi := a[1].(*Term), a[2].(*Term)
 		v := it.newInput(name, it.intSort(64), "int")
+		if it.model != nil {
+			it.extendModel(v, it.tb.Eval(lo, it.model, it.modelMemo))
+		}
 		it.addPC(it.tb.Cmp(token.GEQ, v, lo, true))
 		it.addPC(it.tb.Cmp(token.LEQ, v, hi, true))
+		if l0, _, ok1 := it.bounds(lo); ok1 {
+			if _, h1, ok2 := it.bounds(hi); ok2 {
+				it.varRange[v] = [2]int64{l0, h1}
+				delete(it.ivMemo, v)
+			}
+		}
 		return v
 	}
 	T[zz("AnyInt")] = func(it *Interp, fn *ssa.Function, a []Value) Value {
@@ -386,16 +403,26 @@ func (it *Interp) setupIntrinsics() {
 		v := it.newInput(name, it.intSort(64), "int")
 		it.addPC(it.tb.Cmp(token.GEQ, v, it.mkInt(0), true))
 		it.addPC(it.tb.Cmp(token.LSS, v, n, true))
+		if n.IsConst() {
+			// enumerate the choices directly (no solver needed): every value in [0,n) is feasible
+			k := it.choose(int(n.SInt64()))
+			it.extendModel(v, it.mkInt(k))
+			it.addPC(it.tb.Eq(v, it.mkInt(k)))
+			return it.mkInt(k)
+		}
 		return it.mkInt(int(it.concretize(v)))
 	}
 	T[zz("Concrete")] = func(it *Interp, fn *ssa.Function, a []Value) Value {
 		return it.mkInt(int(it.concretize(a[0].(*Term))))
 	}
 	T[zz("Bool")] = func(it *Interp, fn *ssa.Function, a []Value) Value {
-		return it.newInput(cstr(it, a[0]), BoolSort, "bool")
+		v := it.newInput(cstr(it, a[0]), BoolSort, "bool")
+		it.extendModel(v, it.tb.False)
+		return v
 	}
 	T[zz("Byte")] = func(it *Interp, fn *ssa.Function, a []Value) Value {
 		v := it.newInput(cstr(it, a[0]), it.intSort(8), "byte")
+		it.extendModel(v, it.byteTerm(0))
 		if it.mode == Math {
 			it.addPC(it.tb.Cmp(token.GEQ, v, it.tb.IntC(0), true))
 			it.addPC(it.tb.Cmp(token.LEQ, v, it.tb.IntC(255), true))
@@ -408,6 +435,7 @@ func (it *Interp) setupIntrinsics() {
 		sl := it.makeSlice(types.Typ[types.Byte], n, n)
 		for i := 0; i < n; i++ {
 			v := it.newInput(fmt.Sprintf("%s[%d]", name, i), it.intSort(8), "byte")
+			it.extendModel(v, it.byteTerm(0))
 			if it.mode == Math {
 				it.addPC(it.tb.Cmp(token.GEQ, v, it.tb.IntC(0), true))
 				it.addPC(it.tb.Cmp(token.LEQ, v, it.tb.IntC(255), true))
@@ -421,6 +449,7 @@ func (it *Interp) setupIntrinsics() {
 			name := cstr(it, a[0])
 			if it.mode == Math {
 				v := it.newInput(name, RealSort, "f64")
+				it.extendModel(v, it.tb.RealC(0))
 				lim := it.tb.RealC(it.cfg.RealLimit)
 				it.addPC(it.tb.Cmp(token.LEQ, v, lim, true))
 				it.addPC(it.tb.Cmp(token.GEQ, v, it.tb.Neg(lim), true))
@@ -431,6 +460,7 @@ func (it *Interp) setupIntrinsics() {
 				meta = "f32"
 			}
 			v := it.newInput(name, Sort{SFP, w}, meta)
+			it.extendModel(v, it.tb.FPC(w, 0))
 			if finite {
 				it.addPC(it.tb.Not(it.tb.FUn("isnan", v)))
 				it.addPC(it.tb.Not(it.tb.FUn("isinf", v)))
@@ -762,7 +792,7 @@ func (it *Interp) setupIntrinsics() {
 			s := a[1].(SliceV)
 			for i := 0; i < s.Len; i++ {
 				if ifc, ok := it.sliceGet(s, i).(Iface); ok && ifc.T != nil {
-					if m := it.prog.LookupMethod(ifc.T, nil, "Error"); m != nil {
+					if m := it.findMethod(ifc.T, nil, "Error"); m != nil {
 						it.wrapped[e.(Iface).V.(Ptr).Obj] = ifc
 						break
 					}
